@@ -196,7 +196,7 @@ class _StubClock:
         return self.i
 
 
-@lemma({"d": int, "n": int, "o": int}, params=["Coptic"], budget=120, per_path=30,
+@lemma({"d": int, "n": int, "o": int}, params=["Coptic"], budget=200, per_path=120,
        bounds="ZonedClock over a stub clock (any instant 2 days inside the range), a fixed-offset zone (symbolic choice among 5 offsets in "
               "+-18h) and a calendar abstracted to day numbers (DayCalendar): every getter is the wrapped instant rendered in zone and calendar")
 def zoned_clock(P):
@@ -216,13 +216,15 @@ def zoned_clock(P):
         zc = ZonedClock(stub, zone, cal)
         ok = zc.get_current_instant() is inst and zc.clock is stub and zc.zone is zone and zc.calendar is cal
         z = zc.get_current_zoned_date_time()
-        ok = ok and z.to_instant() == inst and z.offset.seconds == off and z.calendar is cal and z.zone is zone
         local = d * NPD + n + off * 10 ** 9
+        ok = ok and z.offset.seconds == off and z.calendar is cal and z.zone is zone
+        ok = ok and daycal.days_of(z.date) == local // NPD and z.time_of_day.nanosecond_of_day == local % NPD
         ldt = zc.get_current_local_date_time()
         ok = ok and ldt.nanosecond_of_day == local % NPD and ldt.calendar is cal and daycal.days_of(ldt.date) == local // NPD
         ok = ok and zc.get_curent_time_of_day().nanosecond_of_day == local % NPD
         odt = zc.get_current_offset_date_time()
-        ok = ok and odt.to_instant() == inst and odt.offset.seconds == off and odt.calendar is cal
+        ok = ok and odt.offset.seconds == off and odt.calendar is cal
+        ok = ok and daycal.days_of(odt.date) == local // NPD and odt.time_of_day.nanosecond_of_day == local % NPD
         date = zc.get_current_date()
         return ok and daycal.days_of(date) == local // NPD and date.calendar is cal and stub.reads >= 6
     return h
